@@ -177,6 +177,8 @@ def execute(case):
             first = next(i['m'] for i in spec['prog'] if i['op'] == 'call' and spec['mods'][i['m']]['t'].startswith('conv'))
             want_feat.add(first)
         excluded = set(ctor.get('exclude_names', ()))
+        for et in ctor.get('exclude_types', ()):
+            excluded |= {n for n, d in spec['mods'].items() if d['t'].startswith(et)}
         want_time -= excluded
         want_feat -= excluded
         bump('frozen_set_checks')
